@@ -2,6 +2,7 @@ import Abverif.Model.Utf8Spec
 import Abverif.Generated.Utf8TablePy
 import Abverif.Generated.Utf8TableC
 import Abverif.Generated.Utf8UnrolledC
+import Abverif.Generated.Utf8LoopC
 /-
 C09 — the validator models of `Model/Utf8Spec.lean` instantiated with the tables and the macro that
 translate/utf8.py REGENERATES from /repo on every run (`Abverif/Generated/Utf8*.lean`).
@@ -22,13 +23,14 @@ def cUnrolledStep (s o : Nat) : Nat := Gen.unrolledC s o
 def validatePy : St → Bytes → Res × St := validateWith pyStep Gen.pyAccept Gen.pyReject
 
 /-- `nvx_utf8vld_validate`: `impl == 2` runs the unrolled automaton, every other value (1 = table, 3 = SSE2,
-4 = SSE4.1, anything else) runs the table automaton -/
+4 = SSE4.1, anything else) runs the table automaton; the loop-guard flags are read from the C source on every run -/
 def validateNvx (impl : Nat) : St → Bytes → Res × St :=
-  if impl = 2 then validateNvxWith cUnrolledStep else validateNvxWith cTableStep
+  if impl = 2 then validateNvxWith Gen.unrolledLoopGuardsReject cUnrolledStep
+  else validateNvxWith Gen.tableLoopGuardsReject cTableStep
 
-/-- the intended NVX behaviour once F1 is repaired (a rejected validator keeps rejecting, exactly like the
-pure-Python one); used by the harness to recognise a repaired source -/
-def validateNvxFixed (impl : Nat) : St → Bytes → Res × St :=
-  if impl = 2 then validateWith cUnrolledStep 0 1 else validateWith cTableStep 0 1
+/-- HISTORICAL: the NVX validator as shipped before /repo commit c2c187d5 (loops guarded by `&& state != 1`, finding
+F1). Kept only for the negation witness `not_NvxLegacyEqPy` and so that the harness can name a regression. -/
+def validateNvxLegacy (impl : Nat) : St → Bytes → Res × St :=
+  if impl = 2 then validateNvxWith true cUnrolledStep else validateNvxWith true cTableStep
 
 end Abverif.Utf8
